@@ -60,7 +60,12 @@ def check_model(model, sigbase, case, acc=None, cfg_nondefault=False, key=None):
 
         m = re.search(r"op_type:\s*(\w+)|OpType:\s*(\w+)|No Op registered for (\w+)|node #\d+ (\w+)", text)
         op = next((g for g in (m.groups() if m else []) if g), "?")
-        out.append({"sig": dict(sigbase, check=check, op=op), "case": case, "detail": text})
+        low = text.lower()
+        cause = ("mixed_float_double" if ("tensor(float) and tensor(double)" in low or "inconsistent type tensor(double)" in low or "inconsistent type tensor(float)" in low)
+                 else "elem_type_differs" if "elem type differs" in low or "inferred elem type" in low
+                 else "no_op_registered" if "no op registered" in low else "other")
+        sig = {k: v for k, v in dict(sigbase, check=check, op=op, cause=cause).items() if k != "config"}
+        out.append({"sig": sig, "case": case, "detail": (f"[config {sigbase['config']}] " if "config" in sigbase else "") + text})
     return out
 
 
@@ -128,7 +133,9 @@ def gen_case_strategy():
         "sym": st.booleans(),
     })
     cf = st.tuples(st.just("cf"), c06.body_strategy(3, unsupported_p=10**6), st.booleans())
-    hist = st.tuples(st.just("hist"), st.lists(blocks.site_strategy(), min_size=1, max_size=5), st.sampled_from(["fn", "uniq"]))
+    from vf.props import c07
+
+    hist = st.tuples(st.just("hist"), c07.history_strategy(), st.sampled_from(["fn", "uniq"]))
     prog = st.tuples(st.just("prog"), progen.programs(max_stmts=7), st.just(None))
     mixed = st.tuples(st.just("mixed"), c06.body_strategy(2, unsupported_p=10**6), st.lists(blocks.site_strategy(), min_size=1, max_size=3))
     return st.tuples(st.one_of(cf, hist, prog, mixed), cfg)
@@ -155,7 +162,9 @@ def build_generated(kind, a, b, cfg):
         specs = [S((3,), fdt), S(("T" if cfg["sym"] else 2, 3), fdt), S((), np.int32), S((), np.bool_)]
         nout = 2 if b else 1
     elif kind == "hist":
-        fn = blocks.build(a, b)
+        from vf.props import c07
+
+        fn = c07.build(a, b)
         specs = [S(("B" if cfg["sym"] else 3, 4), fdt)]
         nout = 1
     elif kind == "mixed":
@@ -196,7 +205,12 @@ def check_generated(kind, a, b, cfg, acc=None):
         acc.tally("generated", f"{kind}_exported")
     nondefault = any(cfg[k] for k in ("opset", "double", "names", "ir", "sym"))
     cfgclass = "+".join(k for k in ("opset", "double", "names", "ir", "sym") if cfg[k]) or "default"
-    return check_model(model, {"layer": "generated", "structure": kind, "config": cfgclass}, case, acc, cfg_nondefault=nondefault,
+    sigbase = {"layer": "generated", "structure": kind, "double": bool(cfg["double"]), "config": cfgclass}
+    if kind in ("cf", "mixed"):
+        from vf.props import c06
+
+        sigbase["nesting"] = c06.nesting_string(a)
+    return check_model(model, sigbase, case, acc, cfg_nondefault=nondefault,
                        key=("gen", digest([kind, a, b]), digest(cfg)))
 
 
